@@ -352,6 +352,13 @@ func (c *SpecCtx) bin(n *EBin) TV {
 	case "==", "!=":
 		a, b = c.derefArrayPtr(a, b)
 		a, b = c.unifyNil(a, b)
+		if a.T != nil && b.T != nil && a.T != mathInt && b.T != mathInt && a.T != mathBool && b.T != mathBool {
+			// an interface value is a box: comparing it with a concrete value is a specification error
+			// (it would silently compare the box identity), use unbox(x, "T")
+			if types.IsInterface(a.T) != types.IsInterface(b.T) && !isUntypedNil(a.T) && !isUntypedNil(b.T) {
+				c.fail("comparison of an interface value with a concrete value (%s vs %s): use unbox(x, \"T\")", a.T, b.T)
+			}
+		}
 		t := pickType(a.T, b.T)
 		var r Term
 		if _, isSl := a.V.(SliceV); isSl {
